@@ -1714,6 +1714,19 @@ PROBES = [
 ]
 
 
+# try/except/else where the else clause and every handler bind a name the try body does not bind, with and without a binding
+# before the try; read after the statement (an exception-free path always continues through the else clause)
+PROBES += [
+    ['seq', [['bind', 'a', 931], ['try', ['seq', [['mayraise', 931], ['bind', 'b', 932], ['mayraise', 932]]],
+                                   [[['seq', []], None, ['seq', [['bind', 'a', 933]]]]], ['seq', [['bind', 'a', 934]]], ['seq', []]],
+             ['read', 'a', 931], ['read', 'b', 932]]],
+    ['seq', [['try', ['seq', [['mayraise', 933], ['bind', 'b', 935], ['mayraise', 934]]],
+              [[['seq', []], ['bind', 'c', 936], ['seq', [['bind', 'a', 937]]]], [['seq', []], None, ['seq', [['bind', 'a', 938]]]]],
+              ['seq', [['bind', 'a', 939]]], ['seq', []]],
+             ['read', 'a', 933]]],
+]
+
+
 def deep_probe(kind, n=18):
     """n nested regions; a name bound before, rebound half way down, read in the innermost region and after: the lookup chain of the
     innermost read is n tables long (a table folded or reordered past some length shows only here)"""
